@@ -21,6 +21,7 @@ EXPLANATION = ("Structural rules over Result._group_p/_global_n/_remove/__init__
                "with index <= n, consistent with the 1-based index written by TransactionResult; _remove nests its "
                "bisects in the order of the interactions index.")
 EXPLANATION += ' R2 also: a right-sized group must cover every level; R6: span 1 returns the values as given; R7: removed-row numbers and the viewed table belong to the same Result; R8: pairing is re-applied after evaluations were dropped for their length.'
+EXPLANATION += ' R2 also: keep decided per group; R8 also: documented defaults for a missing l / p.'
 
 RES = "coba/results/core.py"
 OWN = {"environments": "environment_id", "learners": "learner_id", "evaluators": "evaluator_id"}
